@@ -1,5 +1,4 @@
 SPECIFICATION TraceSpec
-CONSTANTS Tolerated = {}
 CONSTRAINT Mark
 POSTCONDITION Report
 CHECK_DEADLOCK FALSE
